@@ -119,7 +119,16 @@ func writeEvidenceFile(spec *CheckSpec, tier string, seed int64, runs []evRun, v
 		},
 	}
 	b, _ := json.MarshalIndent(ev, "", " ")
-	dir := filepath.Join(verifRoot(), "evidence")
+	dir := filepath.Join(outRoot(), "evidence")
 	os.MkdirAll(dir, 0o755)
 	os.WriteFile(filepath.Join(dir, spec.Prop+".json"), b, 0o644)
+}
+
+// outRoot: where evidence and scratch output go (VERIF_OUT overrides it, so that runs against a
+// modified copy of the repository do not overwrite the evidence of the real tree).
+func outRoot() string {
+	if v := os.Getenv("VERIF_OUT"); v != "" {
+		return v
+	}
+	return verifRoot()
 }
